@@ -6,6 +6,8 @@ from symx.absgroup import AbsGroup, norm
 from symx.proto import Entropy, setup_hash_axioms, outcome, okind
 
 PID = "C01"
+TECHNIQUE = 'symbolic execution of the real SPAKE2 classes on z3 proxies: abstract prime-order group (discrete-log polynomials) + real IntegerGroup in the exponent domain + real Ed25519 classes over abstract points; z3 decides key equality per path'
+LEVEL_NOTE = 'SHA-256/HKDF uninterpreted; abstract group contract GC1-GC5; exponent laws of Z_p^*; kernel contracts K1-K5; q concrete per query (L, shipped q, toy); byte-string lengths from stated sets; first entropy draw accepted on integer groups'
 EXPLANATION = (
     "The real SPAKE2_A/SPAKE2_B/SPAKE2_Symmetric classes and the real _Params (re-imported from /repo on every run) "
     "are executed symbolically: password, identities and both entropy streams are solver variables (so both secret "
